@@ -767,8 +767,21 @@ func runC07Dispatch(c *Ctx) {
 		}) == nil
 	// paths from Decode back to Decode that avoid handleFrame exist only via frame==nil (which returns). So none expected.
 	c.Check("C07.B2d", fk+":no-frame-skipped", d.Pos(), noSkip, "every loop iteration that continues passes handleFrame", "the loop can go around without handing the decoded frame to handleFrame (a frame would be dropped)")
-	loopsOn := existsPath(fn, hf[0].Instr, isReturn, func(in ssa.Instruction) bool { return in == d }) == nil
-	c.Check("C07.B2d", fk+":continues-after-frame", hf[0].Instr.Pos(), loopsOn, "after handleFrame the loop always goes on to decode the rest of the buffer", "Dispatch can return right after handling a frame: further complete frames already in the buffer stay undecoded until more bytes arrive")
+	emptyReturn := func(in ssa.Instruction) bool {
+		if !isReturn(in) {
+			return false
+		}
+		for _, g := range guardsAt(in.Block()) {
+			if bo, ok := g.Cond.(*ssa.BinOp); ok && bo.Op == token.EQL && g.True && isZero(bo.Y) {
+				if call, ok := bo.X.(*ssa.Call); ok && methodName(call.Common()) == "Len" {
+					return true
+				}
+			}
+		}
+		return false
+	}
+	loopsOn := existsPath(fn, hf[0].Instr, func(in ssa.Instruction) bool { return isReturn(in) && !emptyReturn(in) }, func(in ssa.Instruction) bool { return in == d }) == nil
+	c.Check("C07.B2d", fk+":continues-after-frame", hf[0].Instr.Pos(), loopsOn, "after handleFrame the loop goes on to decode the rest of the buffer (it leaves only when the buffer is empty)", "Dispatch can return right after handling a frame: further complete frames already in the buffer stay undecoded until more bytes arrive")
 	nextOK := existsPath(fn, hf[0].Instr, func(in ssa.Instruction) bool { return in == d }, func(in ssa.Instruction) bool { return in == nx[0].Instr }) == nil
 	c.Check("C07.B2d", fk+":next-context", nx[0].Instr.Pos(), nextOK, "ctxManager.Next() between frames", "the per-stream context is not advanced between two frames")
 	// exits: returns are guarded by Len()==0, frame==nil&&err==nil, err!=nil, or type mismatch
